@@ -55,6 +55,10 @@ def build_case(rec, pool, variant, status_code=None):
             # a multi-member archive
             cut = len(lines) // 2
             gz = gzip.compress(sl.file_bytes(lines[:cut], True, False), mtime=0) + gzip.compress(sl.file_bytes(lines[cut:], True, False), mtime=0)
+            if variant % 8 == 7:
+                # members are a transport detail: the boundaries fall anywhere, also inside a log line (rotated / block-compressed logs)
+                a, b_ = len(plain) // 3, 2 * len(plain) // 3 + 5
+                gz = gzip.compress(plain[:a], mtime=0) + gzip.compress(plain[a:b_], mtime=0) + gzip.compress(b"", mtime=0) + gzip.compress(plain[b_:], mtime=0)
         if fat == i and fk == "notgzip":
             gz = plain if plain else b"not a gzip archive\n"
         if fat == i and fk == "longline":
